@@ -77,16 +77,16 @@ def _fix_arity(n: int, g: Callable[..., Any]) -> Callable[..., Any]:
     return lambda *a: g(*a)
 
 
-def lib_fn(name: str) -> Callable[..., Any]:
-    from vlib.fnsrc import rates
+def lib_fn(name: str, module: str = "rates") -> Callable[..., Any]:
+    import importlib
 
-    return getattr(rates, name)
+    return getattr(importlib.import_module(f"vlib.fnsrc.{module}"), name)
 
 
 def make(fd: dict) -> Callable[..., Any]:
     kind = fd["kind"]
     if kind == "lib":
-        return lib_fn(fd["name"])  # the source-backed function object itself
+        return lib_fn(fd["name"], fd.get("module", "rates"))  # the source-backed function object itself
     n = fd["n"]
     if kind == "multi":
         parts = fd["parts"]  # list of scalar descriptors of same arity
@@ -111,7 +111,7 @@ def evaluate(fd: dict, args: list) -> Any:
     """Reference evaluation of a descriptor (used by refeval; shares only the arithmetic)."""
     kind = fd["kind"]
     if kind == "lib":
-        return lib_fn(fd["name"])(*[_sc(a) for a in args])
+        return lib_fn(fd["name"], fd.get("module", "rates"))(*[_sc(a) for a in args])
     if kind == "multi":
         return tuple(_EVAL[p["kind"]](p["c"], tuple(args)) for p in fd["parts"])
     return _EVAL[kind](fd["c"], tuple(args))
